@@ -106,7 +106,7 @@ impl Lang {
 }
 
 pub static MARKDOWN: Lang = Lang { name: "markdown", suffixes: &["md", "markdown"], family: Family::Md, line: &["[//]:"], block: Some(("<!--", "-->")),
-    wrap: "{}", cr_in_line: false, code: &["Some paragraph text.", "More words here."], decoy: Some("text `{}` more"), prelude: "" };
+    wrap: "{}", cr_in_line: false, code: &["Some paragraph text.", "More words here.", "# Title", "## Section", "### Deeper section", "## Another section"], decoy: Some("text `{}` more"), prelude: "" };
 
 pub fn lang(name: &str) -> &'static Lang {
     if name == "markdown" {
@@ -262,6 +262,10 @@ pub enum GNode {
     /// nested blocks whose start tags share one comment (and so one line): the start tags, the body, and
     /// the end tags - innermost first, one comment each, or all in one comment
     Nest { start: Place, tags: Vec<TagSrc>, body: Vec<GNode>, end: Place, ends_together: bool },
+    /// source text around comments that sit INSIDE a string-like construct of the language (shell command
+    /// substitution in a double-quoted string, a JS template substitution, a parenthesised Python string
+    /// concatenation): `before` line, the inner nodes, `after` line
+    Wrap { before: String, inner: Vec<GNode>, after: String },
     /// Markdown: a list item whose continuation holds the given nodes (html comments indented by two spaces)
     MdListItem(Vec<GNode>),
 }
@@ -409,7 +413,10 @@ impl<'a> W<'a> {
             }
             Form::BlockMulti { before, after, deco } => {
                 let (o, c) = self.lang.block.expect("block form");
-                let lead = if *deco { format!("{} * ", place.indent) } else { format!("{}   ", place.indent) };
+                // (Markdown: continuation lines follow the html block's own indentation, so that a block
+                // inside a list item stays inside it)
+                let base = if self.lang.family == Family::Md { indent.to_string() } else { place.indent.clone() };
+                let lead = if *deco { format!("{base} * ") } else { format!("{base}   ") };
                 self.buf.push_str(o);
                 self.buf.push_str(self.nl);
                 for k in 0..*before {
@@ -427,7 +434,7 @@ impl<'a> W<'a> {
                     self.buf.push_str(&format!("more {}", k));
                     self.buf.push_str(self.nl);
                 }
-                self.buf.push_str(&place.indent);
+                self.buf.push_str(&base);
                 self.buf.push(' ');
                 self.buf.push_str(c);
                 let hi = self.buf.len();
@@ -471,6 +478,15 @@ impl<'a> W<'a> {
                     self.node(c, depth);
                 }
                 self.md_in_list = was;
+                self.buf.push_str(self.nl);
+            }
+            GNode::Wrap { before, inner, after } => {
+                self.buf.push_str(before);
+                self.buf.push_str(self.nl);
+                for c in inner {
+                    self.node(c, depth);
+                }
+                self.buf.push_str(after);
                 self.buf.push_str(self.nl);
             }
             GNode::Nest { start, tags, body, end, ends_together } => {
